@@ -47,9 +47,13 @@ def discover():
             continue
         lines = open(path).read().split("\n")
         file_encodes, file_assumes = [], []
+        cur_mod = None
         i = 0
         while i < len(lines):
             ln = lines[i].strip()
+            mm = re.match(r"^(pub(\(crate\))?\s+)?mod\s+(\w+)\s*\{", lines[i])
+            if mm:
+                cur_mod = mm.group(3)
             if ln.startswith("// @file-encodes"):
                 file_encodes += [x.strip() for x in ln[len("// @file-encodes"):].split(",") if x.strip()]
             elif ln.startswith("// @file-assumes"):
@@ -74,7 +78,9 @@ def discover():
                     j += 1
                 if name is None:
                     raise SystemExit("harness annotation without fn in %s:%d" % (path, i + 1))
-                out.append(Harness(name, src, path, meta, bounds, encodes, assumes))
+                hh = Harness(name, src, path, meta, bounds, encodes, assumes)
+                hh.qual = "%s::%s::%s" % (src, cur_mod, name)
+                out.append(hh)
                 i = j
             i += 1
     names = [h.name for h in out]
@@ -99,6 +105,22 @@ STUB_SETS = {
                 "crate::multi::MultiState::width, crate::draw_target::verif_rig_dt::no_multi_width",
                 "crate::multi::MultiState::is_hidden, crate::draw_target::verif_rig_dt::no_multi_is_hidden",
                 "crate::multi::MultiState::mark_zombie, crate::draw_target::verif_rig_dt::no_multi_mark_zombie"],
+    "nontty": ["console::Term::is_term, crate::draw_target::verif_rig_dt::nontty_is_term",
+               "console::Term::size, crate::draw_target::verif_rig_dt::nontty_size",
+               "console::TermFeatures::is_attended, crate::draw_target::verif_rig_dt::nontty_attended",
+               "console::Term::write_line, crate::draw_target::verif_rig_dt::term_out_str",
+               "console::Term::write_str, crate::draw_target::verif_rig_dt::term_out_str",
+               "console::Term::clear_line, crate::draw_target::verif_rig_dt::term_out0",
+               "console::Term::flush, crate::draw_target::verif_rig_dt::term_out0",
+               "console::Term::move_cursor_up, crate::draw_target::verif_rig_dt::term_out_n",
+               "console::Term::move_cursor_down, crate::draw_target::verif_rig_dt::term_out_n",
+               "console::Term::move_cursor_left, crate::draw_target::verif_rig_dt::term_out_n",
+               "console::Term::move_cursor_right, crate::draw_target::verif_rig_dt::term_out_n"],
+    "rlany": ["crate::draw_target::RateLimiter::allow, crate::draw_target::verif_rig_dt::rl_any"],
+    "rlrefuse": ["crate::draw_target::RateLimiter::allow, crate::draw_target::verif_rig_dt::rl_refuse"],
+    "rlctl": ["crate::draw_target::RateLimiter::allow, crate::draw_target::verif_rig_dt::rl_controlled"],
+    "posany": ["crate::state::AtomicPosition::allow, crate::draw_target::verif_rig_dt::pos_any"],
+    "noweight": ["crate::state::estimator_weight, crate::state::verif_rig_state::weight_any"],
     "norender": ["crate::style::ProgressStyle::format_state, crate::style::verif_rig_style::no_format_state"],
 }
 
@@ -179,6 +201,11 @@ def parse_log(text, h):
             continue
         status_count[status] = status_count.get(status, 0) + 1
         if status == "FAILURE":
+            if desc.startswith("NaN on "):
+                # CBMC's --nan-check flags the *production* of a NaN by a float operation. That is not a panic or UB
+                # in Rust; harnesses assert on NaN explicitly where the property cares (C09, C13).
+                status_count["NAN_INFO"] = status_count.get("NAN_INFO", 0) + 1
+                continue
             failed.append({"desc": desc, "loc": loc, "check": cname})
     r["checks"] = sum(status_count.values())
     r["checks_by_status"] = status_count
@@ -220,6 +247,13 @@ def parse_log(text, h):
         elif unwind_fail:
             r["verdict"] = "BOUND"
             r["why"] = "unwinding assertion failed (bound too small): " + unwind_fail[0]["loc"]
+        elif status_count.get("NAN_INFO") and "Status: ERROR" not in text:
+            # only NaN-production notes "failed": every property check and every Rust panic check passed
+            if covers_sat != covers_total:
+                r["verdict"] = "VACUOUS"
+                r["why"] = "cover not satisfied: " + "; ".join(unsat_covers[:3])
+            else:
+                r["verdict"] = "PASS"
         else:
             r["verdict"] = "INCONCLUSIVE"
             r["why"] = "VERIFICATION FAILED with 0 failed checks (CBMC resource failure)"
@@ -268,7 +302,7 @@ def feature_args(h):
 
 def run_harness(h, overlay, tdir, logdir, extra=None, tag=""):
     log = os.path.join(logdir, h.name + tag + ".log")
-    cmd = ["cargo", "kani", "--harness", h.name, "-Z", "stubbing", "--target-dir", tdir] + feature_args(h) + (extra or [])
+    cmd = ["cargo", "kani", "--harness", h.qual, "--exact", "-Z", "stubbing", "--target-dir", tdir] + feature_args(h) + (extra or [])
     t0 = time.time()
     # the rlimit applies to cargo/kani-compiler/cbmc alike; rustc needs address space too
     rc, to = run_cmd(cmd, overlay, log, h.timeout, max(h.mem, 4))
